@@ -262,6 +262,14 @@ def mk_dur_via(r, via=None):
         from harness import render
         from metomi.isodatetime.parsers import DurationParser
         return DurationParser().parse(render.dur_desc_text(r))
+    if via == "floatdays" and "w" not in r:
+        # whole numbers handed over as floats (Duration(days=2.0, hours=3.0)): "integer-like" values are accepted
+        return Duration(years=r.get("y", 0), months=r.get("mo", 0), days=float(r.get("d", 0)), hours=float(r.get("h", 0)),
+                        minutes=float(r.get("mi", 0)), seconds=float(r.get("s", 0)))
+    if via == "standardize" and "w" not in r:
+        # the constructor's standardize option carries seconds -> minutes -> hours -> days; the duration asked for stays the same
+        return Duration(years=r.get("y", 0), months=r.get("mo", 0), days=r.get("d", 0), hours=r.get("h", 0),
+                        minutes=r.get("mi", 0), seconds=r.get("s", 0), standardize=True)
     return mk_dur(r)
 
 
